@@ -443,3 +443,93 @@ pub fn scn_sorter_real(out: &mut TraceOut, r: &mut R, _idx: u64, small_entries: 
     }
     run_logged(out, &cfg, &inserts, &ids);
 }
+
+/// C17: sorter runs under the allocation monitor, with the buffer accounting (hook H2) logged
+/// after every insert. Entry sizes: empty, tiny, exactly filling the buffer, one byte more than
+/// what is left, larger than the whole buffer; repeated growth from a 32-byte buffer.
+pub fn scn_alloc(out: &mut TraceOut, r: &mut R, idx: u64, heavy: bool) {
+    use crate::alloc;
+    let mut cfg = random_scfg(r, true);
+    cfg.creator = 0;
+    cfg.threads = 0;
+    let (mut t, mut init) = cfg.hook.unwrap();
+    if idx % 3 == 0 {
+        // budgets that are not multiples of the 16-byte bound size
+        t += *pick(r, &[1usize, 5, 8, 15]);
+        if !cfg.realloc {
+            init = t;
+        }
+    }
+    cfg.hook = Some((t, init));
+    let n = r.gen_range(5..if heavy { 400 } else { 120 });
+    let plan: Vec<u8> = (0..n).map(|_| r.gen_range(0..100u8)).collect();
+    let keys: Vec<Vec<u8>> = vec![vec![], vec![1], vec![2, 2], vec![3; 9], long_key(7)];
+    out.ev(cfg.json());
+    let before_all = alloc::snapshot();
+    let mut after_first = alloc::snapshot();
+    let mut last_res = String::new();
+    for round in 0..2 {
+        let mut events: Vec<Value> = Vec::new();
+        let res = catch_unwind(AssertUnwindSafe(|| -> Result<usize, String> {
+            let rec = Recorder { mf: Mf::Concat, calls: RefCell::new(Vec::new()) };
+            let pending: Pending = Rc::new(RefCell::new(Vec::new()));
+            let mut b = Sorter::builder(&rec);
+            b.allow_realloc(cfg.realloc).max_nb_chunks(cfg.maxc).verif_budget(t, init);
+            b.sort_algorithm(if cfg.stable { SortAlgorithm::Stable } else { SortAlgorithm::Unstable });
+            b.chunk_compression_type(codec_of(cfg.chunk.codec)).index_levels(cfg.chunk.levels);
+            let mut sorter = b.chunk_creator(LogCreator { next: RefCell::new(0), log: pending.clone() }).build();
+            for (i, p) in plan.iter().enumerate() {
+                let (cap, elen, nb, _) = sorter.verif_accounting();
+                let free = cap.saturating_sub(elen + 16 * nb);
+                let k = keys[i % keys.len()].clone();
+                let room = free.saturating_sub(16 + k.len());
+                let vlen = match *p {
+                    0..=9 => 0,
+                    10..=39 => (i * 7) % 40,
+                    40..=59 => room,                 // exactly fills the buffer
+                    60..=69 => room + 1,             // one byte too many
+                    70..=79 => room.saturating_sub(1),
+                    80..=89 => cap + 3,              // larger than the whole buffer
+                    90..=94 => 2 * cap + 17,
+                    _ => (t / 4).saturating_sub(16 + k.len()),
+                };
+                let v = vec![0x5Au8; vlen.min(70_000)];
+                sorter.insert(&k, &v).map_err(|e| e.to_string())?;
+                let (cap, elen, nb, chunks) = sorter.verif_accounting();
+                if round == 0 {
+                    events.push(json!({"ev": "Acct", "cap": cap, "elen": elen, "nb": nb, "chunks": chunks, "size": k.len() + v.len()}));
+                }
+                rec.calls.borrow_mut().clear();
+                pending.borrow_mut().clear();
+            }
+            let mut it = sorter.into_stream_merger_iter().map_err(|e| e.to_string())?;
+            let mut count = 0;
+            while let Some(_) = it.next().map_err(|e| e.to_string())? {
+                count += 1;
+            }
+            pending.borrow_mut().clear();
+            Ok(count)
+        }));
+        for e in events {
+            out.ev(e);
+        }
+        last_res = match res {
+            Ok(Ok(_)) => "ok".to_string(),
+            Ok(Err(e)) => format!("err: {}", e),
+            Err(e) => format!("panic: {}", panic_msg(e)),
+        };
+        if round == 0 {
+            after_first = alloc::snapshot();
+        }
+    }
+    let end = alloc::snapshot();
+    let overflow = last_res.contains("overflow");
+    out.ev(json!({"ev": "ARun", "res": if last_res.starts_with("panic") { "panic" } else if last_res == "ok" { "ok" } else { "err" },
+                  "overflow": overflow, "detail": last_res}));
+    let (ma, mf) = alloc::first_mismatch();
+    out.ev(json!({"ev": "AllocSummary", "allocs": end.allocs - before_all.allocs,
+                  "mismatch": end.mismatch - before_all.mismatch, "guard": end.guard - before_all.guard,
+                  "double_free": end.double_free - before_all.double_free, "bad_magic": end.bad_magic - before_all.bad_magic,
+                  "leaked_class": end.live_class - after_first.live_class,
+                  "first_mismatch": [ma, mf]}));
+}
